@@ -19,6 +19,11 @@ def moveTable : List (String × String) :=
    ("wigm", "b.topRank == high_candidate.cid"), ("wigm", "b.topRank == c.cid"), ("wigm_prf", "b.topRank in cids"),
    ("wigm_prf", "b.topRank == high_candidate.cid"), ("wigm_prf", "b.topRank == low_candidate.cid")]
 
+/-- every use of the ballot list in the rule modules and election.py that could depend on a ballot's *position* (subscript, `enumerate`, `zip`,
+    `sorted`, `reversed`, `len`, `.sort/.reverse/.index/.pop/.insert/.remove`): none — the rules only ever iterate over the list, which is the
+    modelling assumption behind C10's reordering theorems (`St.ballots` is folded over, never indexed) -/
+def ballotPositionUses : List (String × String) := []
+
 variable {α : Type} (A : Arith α)
 
 /-- a ballot whose top candidate is not among `cids` (or which is exhausted) is left exactly as it is, and so is the state -/
